@@ -523,3 +523,20 @@ def wide_trees(rng):
         out.append(("wide:max-exceeded", ["dataset", None, [], [["title", "t", [], []]] + [["pubDate", "2021", [], []] for _ in range(n)]]))
         out.append(("wide:foreign-children", ["creator", None, [], [["zz%d" % (i % 7), None, [], []] for i in range(n)]]))
     return out
+
+
+# ------------------------------------------------------------------ the rule table must not change under use
+def file_rules():
+    """rules.json of the repository under test, parsed afresh (a pristine copy of the table)."""
+    import json
+    with open(os.path.join(common.REPO, "src", "metapype", "eml", "rules.json"), encoding="utf-8") as f:
+        return json.load(f)
+
+
+def table_diff():
+    """names of the rules whose LIVE entry differs from rules.json (after a run: the library or a caller-visible
+    alias mutated the table)."""
+    from metapype.eml import rule as R
+    pristine = file_rules()
+    live = R.rules_dict
+    return sorted(k for k in set(pristine) | set(live) if pristine.get(k) != live.get(k))
